@@ -3,7 +3,10 @@
 // every container position x {simple, reference}. Oracles: (1) position independence (differential): the
 // outcome — value or error — is the same at top level, in a struct field, behind a pointer, as slice /
 // array element, as map value and as map key; (2) exact-or-error for the cells of the conversion table
-// with defined semantics; (3) no panic.
+// with defined semantics; (3) no panic; (4) history independence: in a container of two slots (slice, array,
+// map values, struct fields) filled with the tokens X then Y, each slot holds what the token gives alone at top
+// level — nothing of X leaks into Y's slot; (5) reference transparency: a back-reference to a token read
+// earlier (as interface{} or as its natural type) decodes into a destination like the token itself.
 package main
 
 import (
@@ -34,6 +37,7 @@ type spelling struct {
 	name  string
 	bytes func(base int) string // base = number of reference-table entries before the token (reference mode)
 	refs  bool                  // uses back-references: reference mode only
+	self  int                   // reference index of the token's own value relative to base (field-name strings of a class come first)
 	den   den
 }
 
@@ -149,10 +153,17 @@ func spellings() []spelling {
 		spelling{name: "map-string-int", bytes: lit(`m2{ua1ub2}`), den: den{kind: "map", v: map[string]interface{}{"a": 1, "b": 2}}},
 		spelling{name: "map-int-string", bytes: lit(`m2{1ux2uy}`), den: den{kind: "map", v: map[interface{}]interface{}{1: "x", 2: "y"}}},
 		spelling{name: "map-as-object", bytes: lit(`m2{ua1ubux}`), den: den{kind: "map", v: map[string]interface{}{"a": 1, "b": "x"}}},
-		spelling{name: "object", bytes: lit(`c5"Inner"2{s1"a"s1"b"}o0{1ux}`), den: den{kind: "object", v: gen.Inner{A: 1, B: "x"}}},
-		spelling{name: "object-extra-field", bytes: lit(`c5"Inner"3{s1"a"s1"z"s1"b"}o0{1tux}`), den: den{kind: "object", v: gen.Inner{A: 1, B: "x"}}},
-		spelling{name: "object-missing-field", bytes: lit(`c5"Inner"1{s1"b"}o0{ux}`), den: den{kind: "object", v: gen.Inner{A: 0, B: "x"}}},
-		spelling{name: "object-reordered", bytes: lit(`c5"Inner"2{s1"b"s1"a"}o0{ux1}`), den: den{kind: "object", v: gen.Inner{A: 1, B: "x"}}},
+		spelling{name: "object", bytes: lit(`c5"Inner"2{s1"a"s1"b"}o0{1ux}`), self: 2, den: den{kind: "object", v: gen.Inner{A: 1, B: "x"}}},
+		spelling{name: "object-extra-field", bytes: lit(`c5"Inner"3{s1"a"s1"z"s1"b"}o0{1tux}`), self: 3, den: den{kind: "object", v: gen.Inner{A: 1, B: "x"}}},
+		spelling{name: "object-missing-field", bytes: lit(`c5"Inner"1{s1"b"}o0{ux}`), self: 1, den: den{kind: "object", v: gen.Inner{A: 0, B: "x"}}},
+		spelling{name: "object-reordered", bytes: lit(`c5"Inner"2{s1"b"s1"a"}o0{ux1}`), self: 2, den: den{kind: "object", v: gen.Inner{A: 1, B: "x"}}},
+		spelling{name: "object-other-values", bytes: lit(`c5"Inner"2{s1"a"s1"b"}o0{7uy}`), self: 2, den: den{kind: "object", v: gen.Inner{A: 7, B: "y"}}},
+		spelling{name: "object-only-a", bytes: lit(`c5"Inner"1{s1"a"}o0{5}`), self: 1, den: den{kind: "object", v: gen.Inner{A: 5}}},
+		spelling{name: "map-as-object-only-b", bytes: lit(`m1{ubuy}`), den: den{kind: "map", v: map[string]interface{}{"b": "y"}}},
+		spelling{name: "list-one-int", bytes: lit("a1{5}"), den: den{kind: "list", v: []interface{}{5}}},
+		spelling{name: "list-three-ints", bytes: lit("a3{789}"), den: den{kind: "list", v: []interface{}{7, 8, 9}}},
+		spelling{name: "list-of-lists", bytes: lit("a2{a1{1}a2{23}}"), den: den{kind: "list", v: []interface{}{[]interface{}{1}, []interface{}{2, 3}}}},
+		spelling{name: "b-one", bytes: lit(`b1"z"`), den: den{kind: "bytes", s: "z", v: []byte("z")}},
 		spelling{name: "object-field-name-ref", refs: true, bytes: func(b int) string { return fmt.Sprintf(`c5"Inner"2{s1"a"s1"b"}o0{1r%d;}`, b+1) }, den: den{kind: "object", v: gen.Inner{A: 1, B: "b"}}},
 	)
 	return out
@@ -166,8 +177,8 @@ func destinations() []reflect.Type {
 		float32(0), float64(0), complex64(0), complex128(0), "", []byte(nil), [2]byte{}, [16]byte{},
 		time.Time{}, uuid.UUID{}, big.Int{}, big.Float{}, big.Rat{}, (*big.Int)(nil), (*big.Float)(nil), (*big.Rat)(nil),
 		gen.MyInt(0), gen.MyInt8(0), gen.MyUint16(0), gen.MyBool(false), gen.MyFloat(0), gen.MyString(""), gen.MyBytes(nil),
-		[]int(nil), []int8(nil), []uint8(nil), []string(nil), []interface{}(nil), []float64(nil), [2]int{}, [2]string{}, [][]int(nil),
-		map[string]int(nil), map[string]interface{}(nil), map[interface{}]interface{}(nil), map[int]string(nil), map[string]string(nil),
+		[]int(nil), []int8(nil), []uint8(nil), []string(nil), []interface{}(nil), []float64(nil), [2]int{}, [2]string{}, [][]int(nil), [2][]int{}, [8]byte{}, []uuid.UUID(nil), [][2]int(nil),
+		map[string]int(nil), map[string]interface{}(nil), map[interface{}]interface{}(nil), map[int]string(nil), map[string]string(nil), map[string]gen.Inner(nil), map[string][2]int(nil), map[string][]int(nil),
 		gen.Inner{}, (*gen.Inner)(nil), gen.Tagged{}, struct{ A int }{}, (*list.List)(nil),
 		(*int)(nil), (*string)(nil), (*float64)(nil), (*bool)(nil), (**int)(nil), (*[]byte)(nil), (*time.Time)(nil),
 	}
@@ -277,6 +288,102 @@ func decodeAt(sp spelling, t reflect.Type, pos position, simple bool) (outcome, 
 		o.Canon = gen.Canon(slot)
 	}
 	return o, wire, true
+}
+
+// ---- containers of two slots (history independence) ----
+
+type pairContainer struct {
+	name string
+	typ  func(t reflect.Type) reflect.Type
+	wire func(x, y func(int) string, yBase int) string
+	get  func(v reflect.Value, i int) reflect.Value
+}
+
+func pairContainers() []pairContainer {
+	str := reflect.TypeOf("")
+	return []pairContainer{
+		{"slice-of-two", func(t reflect.Type) reflect.Type { return reflect.SliceOf(t) },
+			func(x, y func(int) string, yb int) string { return "a2{" + x(1) + y(yb) + "}" },
+			func(v reflect.Value, i int) reflect.Value {
+				if v.Len() != 2 {
+					return reflect.Value{}
+				}
+				return v.Index(i)
+			}},
+		{"array-of-two", func(t reflect.Type) reflect.Type { return reflect.ArrayOf(2, t) },
+			func(x, y func(int) string, yb int) string { return "a2{" + x(1) + y(yb) + "}" },
+			func(v reflect.Value, i int) reflect.Value { return v.Index(i) }},
+		{"map-of-two", func(t reflect.Type) reflect.Type { return reflect.MapOf(str, t) },
+			func(x, y func(int) string, yb int) string { return "m2{uk" + x(1) + "ul" + y(yb) + "}" },
+			func(v reflect.Value, i int) reflect.Value {
+				if v.Len() != 2 {
+					return reflect.Value{}
+				}
+				return v.MapIndex(reflect.ValueOf([]string{"k", "l"}[i]))
+			}},
+		{"struct-of-two", func(t reflect.Type) reflect.Type {
+			return reflect.StructOf([]reflect.StructField{{Name: "A", Type: t}, {Name: "B", Type: t}})
+		}, func(x, y func(int) string, yb int) string { return "m2{ua" + x(1) + "ub" + y(yb) + "}" },
+			func(v reflect.Value, i int) reflect.Value { return v.Field(i) }},
+	}
+}
+
+// classDefs counts the class definitions of a token, so that a following object token can name its own class
+func classDefs(w string) int { return strings.Count(w, `c5"Inner"`) }
+
+func pairWanted(x, y spelling, thorough bool) bool {
+	if y.refs {
+		return false // the second token's reference indices would depend on what the first one registered
+	}
+	if thorough {
+		return true
+	}
+	comp := func(k string) bool { return k == "list" || k == "map" || k == "object" || k == "bytes" }
+	return x.den.kind == y.den.kind || comp(x.den.kind) && (comp(y.den.kind) || y.den.kind == "null")
+}
+
+type slotOutcome struct {
+	o  outcome
+	ok bool
+}
+
+func decodeWire(wire string, dt reflect.Type, simple bool) (outcome, reflect.Value) {
+	var o outcome
+	p := reflect.New(dt)
+	var err error
+	msg, stack := iocase.Guard(func() {
+		err = iocase.Decode(iocase.Cfg{Entry: "coder", Simple: simple}, []byte(wire), p.Interface())
+	})
+	if msg != "" {
+		o.Panic = msg + " at " + iocase.PanicSite(stack)
+		return o, p.Elem()
+	}
+	if err != nil {
+		o.Err, o.Msg = true, err.Error()
+	}
+	return o, p.Elem()
+}
+
+func canonSlot(v reflect.Value) string {
+	if !v.IsValid() {
+		return "<absent>"
+	}
+	return gen.Canon(v)
+}
+
+// referable reports whether the token's value is entered into the reference table, and so may be referred to
+func referable(sp spelling) bool {
+	if sp.refs {
+		return false
+	}
+	w := sp.bytes(0)
+	switch sp.den.kind {
+	case "text":
+		return strings.HasPrefix(w, "s") && w != `s""`
+	case "bytes", "guid", "datetime", "list", "map", "object":
+		return true
+	}
+	return false
 }
 
 // ---- exact-or-error table ----
@@ -476,7 +583,12 @@ func expect(d den, t reflect.Type) (string, string) {
 		}
 	case k == reflect.Slice || k == reflect.Array || k == reflect.Map:
 		switch d.kind {
-		case "int", "double", "bool", "guid", "datetime":
+		case "guid":
+			if isByteSeq {
+				return "-", "" // the 16 bytes of the id are a fair reading; the table leaves the cell open
+			}
+			return "E", ""
+		case "int", "double", "bool", "datetime":
 			return "E", ""
 		case "null":
 			if k != reflect.Array {
@@ -516,6 +628,8 @@ type result struct {
 	Cases    int64    `json:"cases"`
 	Defined  int64    `json:"defined"`
 	Distinct int64    `json:"distinct"`
+	Pairs    int64    `json:"pairs"`
+	Refs     int64    `json:"refs"`
 	Viol     []viol   `json:"viol"`
 	Samples  []string `json:"samples"`
 }
@@ -613,6 +727,116 @@ func runSpelling(si int) result {
 			}
 		}
 	}
+	thorough := os.Getenv("VERIF_TIER") == "thorough"
+	all := spellings()
+	tops := map[string]outcome{} // top-level outcome of (token, destination, mode)
+	topOf := func(x spelling, t reflect.Type, simple bool) outcome {
+		k := fmt.Sprintf("%s|%s|%v", x.name, t, simple)
+		if o, ok := tops[k]; ok {
+			return o
+		}
+		o, _, _ := decodeAt(x, t, positions()[0], simple)
+		tops[k] = o
+		return o
+	}
+	// (4) history independence
+	for _, y := range all {
+		if !pairWanted(sp, y, thorough) {
+			continue
+		}
+		for _, t := range destinations() {
+			for _, simple := range []bool{true, false} {
+				if sp.refs && simple {
+					continue
+				}
+				tx, ty := topOf(sp, t, simple), topOf(y, t, simple)
+				if tx.Panic != "" || ty.Panic != "" || tx.Err || ty.Err {
+					continue // the single-token checks above own these cells
+				}
+				for _, pc := range pairContainers() {
+					xw := sp.bytes(1)
+					yf := func(b int) string {
+						w := y.bytes(b)
+						if n := classDefs(xw); n > 0 && !simple {
+							w = strings.Replace(w, "o0{", fmt.Sprintf("o%d{", n), 1)
+						} else if n > 0 {
+							w = strings.Replace(w, "o0{", fmt.Sprintf("o%d{", n), 1)
+						}
+						return w
+					}
+					wire := pc.wire(sp.bytes, yf, 0)
+					o, v := decodeWire(wire, pc.typ(t), simple)
+					res.Cases++
+					res.Pairs++
+					seen[wire+"|"+t.String()] = true
+					where := fmt.Sprintf("tokens %s then %s (%q) into %s of %s, simple=%v", sp.name, y.name, wire, pc.name, t, simple)
+					switch {
+					case o.Panic != "":
+						add(fmt.Sprintf("C06|panic|pair|second-kind=%s|dest=%s", y.den.kind, typeClass(t)), where+": panic: "+o.Panic)
+					case o.Err:
+						add(fmt.Sprintf("C06|history-dependent|%s|error|second=%s|dest=%s", pc.name, y.name, typeClass(t)), where+": error "+o.Msg+"; each token alone decodes into "+t.String()+" without error")
+					default:
+						a, b := canonSlot(pc.get(v, 0)), canonSlot(pc.get(v, 1))
+						if pc.name == "map-of-two" && (a == "<absent>" || b == "<absent>") {
+							a, b = "<absent>", "<absent>"
+						}
+						if a != tx.Canon {
+							add(fmt.Sprintf("C06|history-dependent|%s|first-slot|first=%s|dest=%s", pc.name, sp.name, typeClass(t)), where+": first slot holds "+a+", the token alone gives "+tx.Canon)
+						} else if b != ty.Canon {
+							add(fmt.Sprintf("C06|history-dependent|%s|second-slot|second-kind=%s|dest=%s", pc.name, y.den.kind, typeClass(t)), where+": second slot holds "+b+", the token alone gives "+ty.Canon)
+						}
+					}
+				}
+			}
+		}
+	}
+	// (5) reference transparency
+	if referable(sp) {
+		natural := reflect.TypeOf(sp.den.v)
+		iface := reflect.TypeOf((*interface{})(nil)).Elem()
+		firsts := []reflect.Type{iface, natural}
+		switch sp.den.kind {
+		case "text":
+			firsts = append(firsts, reflect.TypeOf(gen.MyString("")))
+		case "bytes":
+			firsts = append(firsts, reflect.TypeOf(gen.MyBytes(nil)))
+		case "object":
+			firsts = append(firsts, reflect.TypeOf((*gen.Inner)(nil)))
+		}
+		for _, first := range firsts {
+			for _, t := range destinations() {
+				dt := reflect.StructOf([]reflect.StructField{{Name: "A", Type: first}, {Name: "B", Type: t}})
+				wire := "m2{ua" + sp.bytes(1) + fmt.Sprintf("ubr%d;}", 1+sp.self)
+				o, v := decodeWire(wire, dt, false)
+				res.Cases++
+				res.Refs++
+				seen[wire+"|"+dt.String()] = true
+				where := fmt.Sprintf("token %s read as %s, then a reference to it (%q) into %s", sp.name, first, wire, t)
+				if o.Panic != "" {
+					add(fmt.Sprintf("C06|panic|reference-to=%s|dest=%s", sp.den.kind, typeClass(t)), where+": panic: "+o.Panic)
+					continue
+				}
+				mode, want := expect(sp.den, t)
+				got := ""
+				if !o.Err {
+					got = gen.Canon(v.Field(1))
+				}
+				switch {
+				case mode == "=" && o.Err:
+					add(fmt.Sprintf("C06|reference-rejected-but-representable|token=%s|first=%s|dest=%s", sp.name, typeClass(first), typeClass(t)), where+": error "+o.Msg+", the destination can represent the denoted value "+want)
+				case mode == "=" && got != want:
+					add(fmt.Sprintf("C06|reference-wrong-value|token=%s|first=%s|dest=%s", sp.name, typeClass(first), typeClass(t)), where+": got "+got+", the token denotes "+want)
+				case mode == "E" && !o.Err:
+					add(fmt.Sprintf("C06|reference-no-error-for-unrepresentable|token-kind=%s|dest=%s", sp.den.kind, typeFamily(t)), where+": got "+got+" without error, the destination cannot represent the denoted value")
+				case mode == "-" && !o.Err:
+					// undefined cell: the reference must at least agree with the token itself when that is accepted
+					if top := topOf(sp, t, false); !top.Err && top.Panic == "" && top.Canon != got {
+						add(fmt.Sprintf("C06|reference-differs-from-token|token=%s|first=%s|dest=%s", sp.name, typeClass(first), typeClass(t)), where+": got "+got+", the token itself decodes into "+t.String()+" as "+top.Canon)
+					}
+				}
+			}
+		}
+	}
 	res.Distinct = int64(len(seen))
 	res.Samples = append(res.Samples, fmt.Sprintf("token %s = %q", sp.name, sp.bytes(0)))
 	return res
@@ -658,7 +882,7 @@ func main() {
 	for i := range sps {
 		jobs[i] = job{i}
 	}
-	var cases, defined, distinct int64
+	var cases, defined, distinct, pairs, refs int64
 	samples := report.NewSamples(12)
 	shard.Run(jobs, shard.Options{JobTimeout: 5 * time.Minute}, func(i int, raw json.RawMessage, fail *shard.Failure) {
 		if fail != nil {
@@ -673,6 +897,8 @@ func main() {
 		cases += r.Cases
 		defined += r.Defined
 		distinct += r.Distinct
+		pairs += r.Pairs
+		refs += r.Refs
 		for _, s := range r.Samples {
 			if i%5 == 0 {
 				samples.Add(s)
@@ -689,6 +915,8 @@ func main() {
 	run.Set("exhaustive", true)
 	run.Set("space", map[string]interface{}{"spellings": len(sps), "destinations": len(destinations()), "positions": len(positions()), "modes": 2})
 	run.Set("cells_with_defined_semantics_checked_at_top_level", defined)
+	run.Set("two_token_container_decodes", pairs)
+	run.Set("reference_decodes", refs)
 	run.Assumption("the exact-or-error table (DESIGN.md appendix B) is deliberately small: cells it does not define are only subject to position independence and to 'no panic'")
 	run.Finish()
 }
